@@ -62,7 +62,8 @@ TECHNIQUE = ("Lean 4 proof (induction over the signature with the loop invariant
 RULE = ("signatures: all words of length <= 4 (quick 3) over 11 scalar IR types exhaustive, random length 5..12, fixed long ones (to 40 args); "
         "frames: every alias variant of every subset of the callee-save list (45 used-sets) x extra caller-saved/xmm registers x stack sizes 0..40 "
         "(thorough 0..300 + random to 2^20) + frames and call instructions (direct and through function pointers) captured from compiling generated "
-        "C functions; gen_call with label and register callees; native ppci callers through function pointers with 1..5 live temporaries; distinct = distinct request line; non-trivial = "
+        "C functions; gen_call with label and register callees; native ppci callers through function pointers with 1..5 live temporaries; ppci units with static pointer tables / struct arrays with pointers "
+        "(relocations against data and code) linked by gcc and called through in both directions; distinct = distinct request line; non-trivial = "
         "signature with at least one stack argument, or frame that saves at least one register or has a non-zero stack size, or an error outcome")
 TRUSTED = [
     "hand model Model.X64CC of ppci/arch/x86_64/arch.py (determine_arg_locations, determine_rv_location, gen_prologue, gen_epilogue, get_callee_saved, round_up16, gen_call, gen_function_enter), tied by differential run on every check",
@@ -765,6 +766,16 @@ def check(ctx):
         else:
             ctx.extra_cov["native_indirect_calls"] = "skipped: gcc not found"
             ctx.note("gcc not found: native indirect-call run skipped in the quick tier (the clobber-list checks do not need it)")
+    # ---- (4a') statically initialised pointer tables: relocations against data as well as code (both tiers) ----
+    if not os.environ.get("VERIF_C40_NO_INTEROP"):
+        nu = 8 if ctx.thorough else 2
+        if native_tables(ctx, nu):
+            ctx.extra_cov["native_pointer_tables"] = (f"{nu} ppci units with static tables of function pointers (to ppci and gcc functions), data pointers and "
+                                                      "struct arrays with pointers, written as relocatable ELF, linked by gcc, called through in both directions")
+        elif ctx.thorough:
+            raise common.BrokenCheck("gcc not found (needed for the native interop search)")
+        else:
+            ctx.extra_cov["native_pointer_tables"] = "gcc not found: only the tool-free ELF section-overlap check ran"
     # ---- (4b) real interop (thorough) --------------------------------------------------------------
     if ctx.thorough and not os.environ.get("VERIF_C40_NO_INTEROP"):
         interop(ctx)
@@ -973,6 +984,172 @@ def native_indirect(ctx, nfun):
                          f"overwrites all caller-saved registers: got/expected {line.split()[2:]}  [{f[2].strip()}]", case, output=line)
         ctx.sample({"native_indirect_caller": funcs[0][2].strip(), "call": funcs[0][4]})
         return True
+    finally:
+        shutil.rmtree(tmp, ignore_errors=True)
+
+
+def elf_section_overlaps(data):
+    """tool-free sanity check of a written ELF64 object: every section's file range lies inside the file and no two
+    non-empty, file-backed sections overlap.  -> list of problem strings"""
+    import struct
+    if data[:4] != b"\x7fELF" or data[4] != 2:
+        return ["not an ELF64 file"]
+    shoff, = struct.unpack_from("<Q", data, 0x28)
+    shentsize, shnum, shstrndx = struct.unpack_from("<HHH", data, 0x3A)
+    secs = []
+    for i in range(shnum):
+        name, typ, _flags, _addr, off, size, _link, _info, _align, _ent = struct.unpack_from("<IIQQQQIIQQ", data, shoff + i * shentsize)
+        secs.append((i, name, typ, off, size))
+    stroff = secs[shstrndx][3] if shstrndx < len(secs) else 0
+
+    def nm(n):
+        e = data.index(b"\0", stroff + n)
+        return data[stroff + n:e].decode("latin1")
+    problems = []
+    ranges = []
+    for i, name, typ, off, size in secs:
+        if typ in (0, 8) or size == 0:      # SHT_NULL, SHT_NOBITS
+            continue
+        if off + size > len(data):
+            problems.append(f"section {nm(name)} [{off},{off + size}) beyond end of file {len(data)}")
+        ranges.append((off, off + size, nm(name)))
+    ranges.sort()
+    for (a0, a1, an), (b0, b1, bn) in zip(ranges, ranges[1:]):
+        if b0 < a1:
+            problems.append(f"sections {an} [{a0},{a1}) and {bn} [{b0},{b1}) overlap in the file")
+    return problems
+
+
+def native_tables(ctx, nunits):
+    """ppci units with statically initialised tables of function pointers (to ppci and to gcc functions), data pointers to
+    objects in other sections and initialised struct arrays holding pointers (relocations in `data` as well as `code`);
+    a gcc driver calls through the tables in both directions and checks values and pointer identities.
+    A ppci object that gcc cannot link although gcc's own object of the same source links is a failing input.
+    Returns False when gcc is not available."""
+    gcc = shutil.which("gcc")
+    from ppci.api import cc
+    from ppci.format.elf import write_elf
+    rng = ctx.rng
+    PBODY = ["a - b", "a ^ b", "a + 2 * b", "a * 3 - b", "b - a", "a + b + 1"]
+    GBODY = ["a + b", "a * b", "a - 2 * b", "(a | b) + 1"]
+    tmp = tempfile.mkdtemp(prefix="verif-c40t-", dir="/tmp")
+    try:
+        for u in range(nunits):
+            npf, ngf = rng.randint(2, 5), rng.randint(2, 4)
+            pb = [rng.choice(PBODY) for _ in range(npf)]
+            gb = [rng.choice(GBODY) for _ in range(ngf)]
+            ntab = rng.randint(2, 6)
+            gtab = [rng.randrange(ngf) for _ in range(ntab)]          # ppci's table of gcc functions
+            ptab = [rng.randrange(npf) for _ in range(rng.randint(2, 6))]   # exported table of ppci functions
+            cells = [rng.randint(-10 ** 6, 10 ** 6) for _ in range(rng.randint(2, 4))]
+            gcells = [rng.randint(-10 ** 6, 10 ** 6) for _ in range(2)]
+            nent = rng.randint(2, 5)
+            ents = [(rng.randint(1, 99), rng.choice(["p", "g"]), rng.randrange(min(npf, ngf)), rng.randrange(len(cells))) for _ in range(nent)]
+            fk = rng.randint(1, 9)
+            unit = ["typedef long (*binop)(long, long);", "typedef double (*fbinop)(double, float);",
+                    "struct ent { long tag; binop f; long *p; };"]
+            unit += [f"extern long g{j}(long a, long b);" for j in range(ngf)]
+            unit += ["extern double gf(double x, float y);", "extern long gcell0;", "extern long gcell1;"]
+            unit += [f"long p{j}(long a, long b) {{ return {pb[j]}; }}" for j in range(npf)]
+            unit += [f"double pf(double x, float y) {{ return x * {fk} + y; }}"]
+            unit += [f"long cell{j} = {v};" for j, v in enumerate(cells)]
+            unit += [f"long *cell_ptr{j} = &cell{j};" for j in range(len(cells))]
+            unit += ["long *gcell_ptr[2] = { &gcell0, &gcell1 };"]
+            unit += [f"static binop gcc_ops[{ntab}] = {{ " + ", ".join(f"g{j}" for j in gtab) + " };", "static fbinop gcc_fop = gf;"]
+            unit += [f"binop ppci_ops[{len(ptab)}] = {{ " + ", ".join(f"p{j}" for j in ptab) + " };", "fbinop ppci_fop = pf;"]
+            unit += [f"struct ent ents[{nent}] = {{ " + ", ".join(f"{{ {t}, {k}{j}, &cell{c} }}" for t, k, j, c in ents) + " };"]
+            unit += ["long table_gcc(int i, long a, long b) { return gcc_ops[i](a, b); }",
+                     "double table_gcc_f(double x, float y) { return gcc_fop(x, y) + 1; }",
+                     "long ent_call(int i, long a, long b) { return ents[i].f(a, b) + *ents[i].p + ents[i].tag; }",
+                     f"long read_cells(void) {{ return " + " + ".join(f"*cell_ptr{j}" for j in range(len(cells))) + " + *gcell_ptr[0] - *gcell_ptr[1]; }"]
+            unit_src = "\n".join(unit) + "\n"
+            case = {"unit": unit_src}
+            ctx.count("eval_native_tables_unit")
+            ctx.count("programs_interop")
+            ctx.nontrivial("tables " + unit_src)
+            try:
+                o = cc(io.StringIO(unit_src), "x86_64")
+            except Exception as e:  # noqa
+                ctx.fail(f"interop:tables:ppci-compile-fails:{type(e).__name__}", f"ppci cannot compile a unit with static pointer tables: {type(e).__name__}: {str(e)[:160]}", case)
+                continue
+            relsecs = sorted({r.section for r in o.relocations})
+            if len(relsecs) < 2:
+                raise common.BrokenCheck(f"generated table unit has relocations only against {relsecs}")
+            buf = io.BytesIO()
+            write_elf(o, buf, type="relocatable")
+            blob = buf.getvalue()
+            probs = elf_section_overlaps(blob)
+            if probs:
+                ctx.fail("interop:elf-sections-overlap", f"write_elf(relocatable) of a unit with relocations against {relsecs}: " + "; ".join(probs[:3]), case, problems=probs)
+            if not gcc:
+                continue
+            d = os.path.join(tmp, f"u{u}")
+            os.mkdir(d)
+            open(os.path.join(d, "p.o"), "wb").write(blob)
+            open(os.path.join(d, "unit.c"), "w").write(unit_src)
+            a, b = rng.randint(-1000, 1000), rng.randint(-1000, 1000)
+            x, y = rng.randint(-40, 40) / 4.0, rng.randint(-40, 40) / 4.0
+            gexpr = lambda body: "(" + body.replace("a", f"({a}L)").replace("b", f"({b}L)") + ")"   # noqa
+            drv = ["#include <stdio.h>", "typedef long (*binop)(long, long);", "typedef double (*fbinop)(double, float);",
+                   "struct ent { long tag; binop f; long *p; };"]
+            drv += [f"long g{j}(long a, long b) {{ return {gb[j]}; }}" for j in range(ngf)]
+            drv += ["double gf(double x, float y) { return x / 2 - y; }", f"long gcell0 = {gcells[0]};", f"long gcell1 = {gcells[1]};"]
+            drv += [f"extern long p{j}(long, long);" for j in range(npf)]
+            drv += ["extern double pf(double, float);"] + [f"extern long cell{j}; extern long *cell_ptr{j};" for j in range(len(cells))]
+            drv += ["extern long *gcell_ptr[2];", "extern binop ppci_ops[]; extern fbinop ppci_fop; extern struct ent ents[];",
+                    "extern long table_gcc(int, long, long); extern double table_gcc_f(double, float); extern long ent_call(int, long, long); extern long read_cells(void);",
+                    "static int n;",
+                    '#define CK(what, got, want) do { long g_ = (long)(got), w_ = (long)(want); n++; if (g_ != w_) printf("MISMATCH %d %s got %ld want %ld\\n", n, what, g_, w_); else printf("OK %d\\n", n); fflush(stdout); } while (0)',
+                    '#define CKD(what, got, want) do { double g_ = (got), w_ = (want); n++; if (g_ != w_) printf("MISMATCH %d %s got %a want %a\\n", n, what, g_, w_); else printf("OK %d\\n", n); fflush(stdout); } while (0)',
+                    "int main(void) {"]
+            # pointer identities first (a wrong slot is then reported, not called)
+            for j in range(len(cells)):
+                drv.append(f'  CK("cell_ptr{j}==&cell{j}", cell_ptr{j} == &cell{j}, 1);')
+            drv.append('  CK("gcell_ptr[0]", gcell_ptr[0] == &gcell0, 1); CK("gcell_ptr[1]", gcell_ptr[1] == &gcell1, 1);')
+            for i, j in enumerate(ptab):
+                drv.append(f'  CK("ppci_ops[{i}]==p{j}", ppci_ops[{i}] == p{j}, 1);')
+            drv.append('  CK("ppci_fop==pf", ppci_fop == pf, 1);')
+            for i, (t, k, j, c) in enumerate(ents):
+                drv.append(f'  CK("ents[{i}]", ents[{i}].tag == {t} && ents[{i}].f == {k}{j} && ents[{i}].p == &cell{c}, 1);')
+            total = " + ".join(f"({v}L)" for v in cells) + f" + ({gcells[0]}L) - ({gcells[1]}L)"
+            drv.append(f'  CK("read_cells", read_cells(), {total});')
+            for i, j in enumerate(ptab):
+                drv.append(f'  CK("gcc->ppci via ppci_ops[{i}]", ppci_ops[{i}]({a}L, {b}L), {gexpr(pb[j])});')
+            drv.append(f'  CKD("gcc->ppci via ppci_fop", ppci_fop({x!r}, (float){y!r}), {x!r} * {fk} + (float){y!r});')
+            for i, j in enumerate(gtab):
+                drv.append(f'  CK("ppci->gcc via gcc_ops[{i}]", table_gcc({i}, {a}L, {b}L), {gexpr(gb[j])});')
+            drv.append(f'  CKD("ppci->gcc via gcc_fop", table_gcc_f({x!r}, (float){y!r}), {x!r} / 2 - (float){y!r} + 1);')
+            for i, (t, k, j, c) in enumerate(ents):
+                body = pb[j] if k == "p" else gb[j]
+                drv.append(f'  CK("ent_call({i})", ent_call({i}, {a}L, {b}L), {gexpr(body)} + ({cells[c]}L) + {t});')
+            drv.append("  return 0;\n}")
+            open(os.path.join(d, "drv.c"), "w").write("\n".join(drv) + "\n")
+            r = subprocess.run([gcc, "-O1", "-no-pie", "-w", "-o", "drv", "drv.c", "p.o"], cwd=d, capture_output=True, text=True)
+            if r.returncode != 0:
+                # does gcc's own object of the same unit link?
+                r2 = subprocess.run([gcc, "-O1", "-no-pie", "-w", "-o", "drv_gcc", "drv.c", "unit.c"], cwd=d, capture_output=True, text=True)
+                if r2.returncode != 0:
+                    raise common.BrokenCheck("generated table program does not build with gcc alone:\n" + r2.stderr[-1200:])
+                msg = [l for l in r.stderr.splitlines() if "warning" not in l and "NOTE" not in l]
+                ctx.fail("interop:link-fails", f"gcc/ld rejects the ppci object of a unit with relocations against {relsecs} (gcc's own object of the same source links): "
+                         + " | ".join(msg[:3])[:300], case, linker=msg[:8])
+                continue
+            try:
+                pr = subprocess.run(["./drv"], cwd=d, capture_output=True, text=True, timeout=60)
+                rc, out = pr.returncode, pr.stdout
+            except subprocess.TimeoutExpired:
+                rc, out = -999, ""
+            lines = out.splitlines()
+            for line in lines:
+                ctx.count("eval_native_tables_check")
+                if line.startswith("MISMATCH"):
+                    what = " ".join(line.split()[2:])
+                    kind = "pointer-slot-wrong" if "==" in what or what.startswith("ents[") or what.startswith("gcell_ptr") else "wrong-value"
+                    ctx.fail(f"interop:tables:{kind}", f"unit {u}: {what}", case, output=line)
+            if rc != 0:
+                ctx.fail("interop:tables:crash", f"unit {u}: driver ended with rc={rc} after {len(lines)} checks (last: {lines[-1] if lines else '-'})", case)
+        ctx.sample({"native_tables_unit": unit_src[:600]})
+        return bool(gcc)
     finally:
         shutil.rmtree(tmp, ignore_errors=True)
 
